@@ -13,7 +13,12 @@ for mid in sys.argv[3:]:
     patch = os.path.join(d, "patch.diff")
     env = dict(os.environ)
     if mode == "repo":
-        subprocess.run(["git", "-C", "/repo", "apply", patch], check=True)
+        if subprocess.run(["git", "-C", "/repo", "status", "--porcelain", "--untracked-files=no"], capture_output=True).stdout.strip():
+            sys.exit("refusing: /repo has uncommitted changes")
+        if subprocess.run(["git", "-C", "/repo", "apply", patch]).returncode != 0:
+            subprocess.run(["git", "-C", "/repo", "checkout", "--", "."], check=True)
+            print(f"{mid:8s} patch does not apply to the current /repo")
+            continue
     else:
         sc = f"/var/tmp/verif-eval-{os.getpid()}"
         shutil.rmtree(sc, ignore_errors=True)
@@ -21,7 +26,7 @@ for mid in sys.argv[3:]:
         subprocess.run(["patch", "-p1", "-s", "-i", patch], cwd=sc, check=True)
         env["VERIF_REPO"] = sc
     try:
-        r = subprocess.run([os.path.join(VERIF, "check"), prop, "--only", engines], capture_output=True, env=env, cwd=VERIF)
+        r = subprocess.run([os.path.join(VERIF, "check"), prop, "--only", engines, "--tier", os.environ.get("EVAL_TIER", "quick")], capture_output=True, env=env, cwd=VERIF)
     finally:
         if mode == "repo":
             subprocess.run(["git", "-C", "/repo", "checkout", "--", "."], check=True)
@@ -42,6 +47,6 @@ for mid in sys.argv[3:]:
     rp = os.path.join(d, "detection.json")
     if os.path.exists(rp):
         allres = json.load(open(rp))
-    allres[f"{mode}:{engines}"] = res
+    allres[f"{mode}:{engines}" + (":" + os.environ["EVAL_TIER"] if os.environ.get("EVAL_TIER") else "")] = res
     json.dump(allres, open(rp, "w"), indent=1)
     print(f"{mid:8s} {'DETECTED' if res['detected'] else ('undecided' if r.returncode == 2 else 'missed  ')} exit={r.returncode} {[o.get('obligation') for o in obs]} {[u['obligation'] for u in res['undecided']][:3]}")
